@@ -198,7 +198,9 @@ func (pr Pairing) AssertFinalExponentiationIsOne(a *GTEl) {
 
 	t1 := pr.Ext12.FrobeniusCube(residueWitness)
 	t0 := pr.Ext12.FrobeniusSquare(residueWitness)
-	t1 = pr.Ext12.DivUnchecked(t1, t0)
+	// checked division: a zero residueWitness (with a zero
+	// cubicNonResiduePower) must not satisfy the check
+	t1 = pr.Ext12.Mul(t1, pr.Ext12.Inverse(t0))
 	t0 = pr.Ext12.Frobenius(residueWitness)
 	t1 = pr.Ext12.Mul(t1, t0)
 
